@@ -129,6 +129,8 @@ def run_probe(lifted, scratch):
         dis = dis or (exp["stdout_lacks"] in p.stdout)
     if exp.get("is_error") is True:
         dis = dis or ("ERR:" not in p.stdout)
+    if exp.get("must_compile") is True:      # a valid program of the property's domain: a rejection is a disagreement too
+        dis = dis or ("ERR:" in p.stdout)
     sim = lifted.get("simulate")
     if sim and sim.get("expect_from_args") is not None and not lifted.get("_baseline"):
         # C02: the expectation is what the same program computes when compiled with the baseline options (-O0)
